@@ -101,6 +101,7 @@ func (c *Ctx) c05Malformed(s *c05Set) {
 			c.c05Step(s, ev, si, rlk, "mulrelin", mk(L), c05Arg{kind: "r", reg: mk(L)}, newOut)
 			c.c05Step(s, ev, si, rlk, "mulrelinsi", mk(L), c05Arg{kind: "r", reg: mk(L)}, newOut)
 			c.c05Step(s, ev, si, rlk, "mulrelin", mk(L), c05Arg{kind: "r", reg: c.c05NewPt(s, L, 1)}, newOut)
+			c.c05Step(s, ev, si, rlk, "mrta", mk(L), c05Arg{kind: "r", reg: mk(L)}, c05Out{mode: "into", reg: mk(L)})
 			c.c05Step(s, ev, si, rlk, "relin", deg2(), c05Arg{kind: "none"}, newOut)
 			c.c05Step(s, ev, si, rlk, "relin", mk(L), c05Arg{kind: "none"}, newOut)
 			// no level left / not enough room
